@@ -154,8 +154,22 @@ func VerifC13_ReserialiseLiterals() {
 	if err != nil {
 		return
 	}
+	verifCanon(t1)
+	verifCanon(t2)
 	verif.Assert(verif.DeepEqual(t1, t2), "reparsed-tree-equal")
 	verif.Assert(String(t2) == printed, "printing-is-a-fixed-point")
+}
+
+// verifCanon removes a representation difference that is not a difference between statements: an expression
+// followed by an empty quoted alias (two quote characters after a value) keeps the quote character of that empty alias in the tree,
+// while the printer (rightly) prints no alias at all, so the re-parsed tree has the zero alias.
+func verifCanon(t Statement) {
+	Walk(func(n SQLNode) (bool, error) {
+		if ae, ok := n.(*AliasedExpr); ok && ae.As.val == "" {
+			ae.As = ColIdent{}
+		}
+		return true, nil
+	}, t)
 }
 
 // VerifC13_ReserialiseIdentifiers: the same for quoted identifiers (column and table names).
